@@ -687,7 +687,7 @@ def _find_text_delim_idx(region_str):
     Find the indices of the DS9 text field delimiters ({}, '', or "") in
     a string.
     """
-    pattern = re.compile(r'(text\s*=\s*[{\'"])')
+    pattern = re.compile(r'(text\s*=\s*[{\'"])', re.IGNORECASE)
     idx0 = []
     delim = []
     start_idx = []
